@@ -40,8 +40,23 @@ Definition v3cl {X} (cl : X -> X -> bool) (a b : X * X * X) : bool :=
   cl (fst (fst a)) (fst (fst b)) && cl (snd (fst a)) (snd (fst b)) && cl (snd a) (snd b).
 Definition lF (model : list float) (impl : list dy) : bool := all2 (fun a b => fcl a (dyF b)) model impl.
 Definition lQ (model : list Q) (impl : list dy) : bool := all2 (fun a b => qcl a (dyQ b)) model impl.
-Definition lF3 (model : list (vec float)) (impl : list dy3) : bool := all2 (fun a b => v3cl fcl a (dy3F b)) model impl.
-Definition lQ3 (model : list (vec Q)) (impl : list dy3) : bool := all2 (fun a b => v3cl qcl a (dy3Q b)) model impl.
+(* vectors: the tolerance is relative to the size (max-norm) of the implementation's vector, so that a component that
+   should vanish may carry the round-off of the other components (a mesh scaled by 2^130 has coordinates ~1e39) *)
+Definition fmax3 (b : vec float) : float :=
+  let m (x y : float) := if PrimFloat.leb x y then y else x in
+  m (m (PrimFloat.abs (fst (fst b))) (PrimFloat.abs (snd (fst b)))) (PrimFloat.abs (snd b)).
+Definition fclv (a b : vec float) : bool :=
+  let t := PrimFloat.mul tol9 (PrimFloat.add PrimFloat.one (fmax3 b)) in
+  PrimFloat.leb (PrimFloat.abs (PrimFloat.sub (fst (fst a)) (fst (fst b)))) t
+  && PrimFloat.leb (PrimFloat.abs (PrimFloat.sub (snd (fst a)) (snd (fst b)))) t
+  && PrimFloat.leb (PrimFloat.abs (PrimFloat.sub (snd a) (snd b))) t.
+Definition qmax3 (b : vec Q) : Q :=
+  let m (x y : Q) := if Qle_bool x y then y else x in m (m (Qabs (fst (fst b))) (Qabs (snd (fst b)))) (Qabs (snd b)).
+Definition qclv (a b : vec Q) : bool :=
+  let t := (qtol * (1 + qmax3 b))%Q in
+  Qle_bool (Qabs (fst (fst a) - fst (fst b))) t && Qle_bool (Qabs (snd (fst a) - snd (fst b))) t && Qle_bool (Qabs (snd a - snd b)) t.
+Definition lF3 (model : list (vec float)) (impl : list dy3) : bool := all2 (fun a b => fclv a (dy3F b)) model impl.
+Definition lQ3 (model : list (vec Q)) (impl : list dy3) : bool := all2 (fun a b => qclv a (dy3Q b)) model impl.
 
 (* an implementation angle theta with (cos theta, sin theta) computed by Python's math: agrees with the model's
    pair (c, s) iff the normalised pair is (cos, sin) and theta lies in [0, pi] *)
@@ -106,7 +121,7 @@ Definition check_obs (c : case) (mf : mesh float) (mq : mesh Q) (ang : list floa
   | O_face_area l => lF (face_area fo mf) l
   | O_face_normals l => lF3 (face_normals fo mf) l
   | O_face_bary l => lQ3 (face_barycenter qo mq) l
-  | O_circum l => all2 (fun a b => match a with Some x => v3cl fcl x (dy3F b) | None => false end) (face_circumcenter fo mf) l
+  | O_circum l => all2 (fun a b => match a with Some x => fclv x (dy3F b) | None => false end) (face_circumcenter fo mf) l
   | O_cot l => lF (cotangent fo mf) l
   | O_cw l => lF (cotan_weights fo mf) l
   | O_degree l => list_eqb Z.eqb (degree mf) l
@@ -120,7 +135,7 @@ Definition check_obs (c : case) (mf : mesh float) (mq : mesh Q) (ang : list floa
   | O_mean_area n x => fcl (mean_face_area fo mf n) (dyF x)
   | O_mean_vol n x => qcl (mean_cell_volume qo mq n) (dyQ x)
   | O_total_area x => fcl (total_area fo mf) (dyF x)
-  | O_bary x => v3cl qcl (barycenter qo mq) (dy3Q x)
+  | O_bary x => qclv (barycenter qo mq) (dy3Q x)
   | O_v2f va l => lQ (interpolate_vertices_to_faces qo 0%Q (oadd qo) sQ (odiv qo) mq (map dyQ va)) l
   | O_f2v w fa l =>
       if is_exact_weight w
